@@ -268,10 +268,10 @@ def tailMemBaseNoImm (opcode : BitVec 32) (m : MemView) : Result :=
   if !checkMemBase m || m.hasIndex then invalidAddress else
   if m.hasOffset then invalidDisplacement else ok1 (opcode ||| addReg m.baseId 5)
 
-/-- `EmitOp_MemBaseIndex_Rn5_Rm16` (with the checks of fixes/C02-7.patch) -/
+/-- `EmitOp_MemBaseIndex_Rn5_Rm16` (as in /repo: only "has a base register" and the index id are checked; the proposed
+checks of base id / write-back mode / index width are open findings) -/
 def tailMemBaseIndex (opcode : BitVec 32) (m : MemView) : Result :=
-  if !checkMemBase m || m.mode != 0 then invalidAddress else
-  if m.indexType != (if opcode.getLsbD 13 then rtGp64 else rtGp32) then invalidAddress else
+  if !m.hasBaseReg then invalidAddress else
   if m.indexId > 30 && m.indexId != idZR then invalidPhysId else
   ok1 (opcode ||| addReg m.indexId 16 ||| addReg m.baseId 5)
 
